@@ -938,11 +938,28 @@ class Nexus(Family):
             if is_int(L) and rng.random() < 0.4:
                 opts["reference_sequence"] = "".join(rng.choice("ACGT") for _ in range(int(L)))
             yield {"desc": desc, "opts": opts}
+        # --- genome coordinates beyond the 32-bit integer ranges (the model's coordinates are
+        # unbounded Z: these cases guard the integer widths of the implementation).  Discrete
+        # genomes with breakpoints / sequence_length >= 2^31 and >= 2^32, and non-discrete ones
+        # with large coordinates, at several precisions; no sites, no alignments (L is huge).
+        big_scales = [2 ** 29, 2 ** 30, 2 ** 31, 2 ** 32, 10 ** 9, 3 * 10 ** 9, 1234567891, 2 ** 31 - 1,
+                      2.0 ** 31 + 0.5, 1e9 / 3, 2.0 ** 33 + 0.25, 1e12 + 0.125]
+        for k in range(90 if tier == "quick" else 900):
+            scale = big_scales[k % len(big_scales)]
+            desc = connected_desc(rng, max_L=rng.choice([2, 3, 6]), p_gap=0.0, sites=False, scale=scale)
+            desc = apply_tmap(desc, rng.choice(["id", "id", "eighth"]))
+            opts = {"precision": rng.choice([None, None, 0, 1, 3, 17]),
+                    "include_trees": rng.choice([None, None, True]),
+                    "include_alignments": rng.choice([None, False]),
+                    "reference_sequence": None, "missing_data_character": None}
+            yield {"desc": desc, "opts": opts}
 
     def observe(self, case):
         desc, opts = case["desc"], case["opts"]
         ts = gen_ts.build_tables(desc).tree_sequence()
         obs = {"samples": [int(u) for u in ts.samples()], "num_trees": ts.num_trees}
+        if desc["L"] * desc["scale"] > 10 ** 6:
+            obs["alignments"] = {"err": "NotObserved", "msg": "sequence too long to materialise"}
         try:
             obs["text"] = ts.as_nexus(**opts)
         except Exception as e:
@@ -958,6 +975,8 @@ class Nexus(Family):
             os.unlink(path)
         try:
             mdc = "?" if opts["missing_data_character"] is None else opts["missing_data_character"]
+            if "alignments" in obs:
+                return obs
             obs["alignments"] = list(ts.alignments(reference_sequence=opts["reference_sequence"],
                                                    missing_data_character=mdc))
         except Exception as e:
@@ -1110,6 +1129,8 @@ class Nexus(Family):
     def describe(self, case, obs):
         return {"result": "str" if isinstance(obs["text"], str) else obs["text"]["err"],
                 "data_block": isinstance(obs["text"], str) and "BEGIN DATA" in obs["text"],
+                "max_coordinate": (lambda L: "<2^31" if L < 2 ** 31 else "<2^32" if L < 2 ** 32 else ">=2^32")(
+                    case["desc"]["L"] * case["desc"]["scale"]),
                 "trees": min(obs["num_trees"], 4)}
 
 
